@@ -19,3 +19,9 @@ impl OperationalMode {
         )
     }
 }
+#[cfg(any(kani, verif_native))]
+impl ControlField {
+    pub fn verif_new(aa: ICAO, me: ME) -> Self {
+        Self { t: ControlFieldType::ADSB_ES_NT, aa, me }
+    }
+}
